@@ -860,4 +860,9 @@ mod tests {
             Pin::new(&mut self.inner).poll_read(cx, &mut buf[..len])
         }
     }
+
+    #[cfg(lumina_verif)]
+    mod verif_native {
+        include!(concat!(env!("LUMINA_VERIF_DIR"), "/native/node/framing.rs"));
+    }
 }
